@@ -305,6 +305,18 @@ Definition deployed_schemas : list (string * schema) :=
     ("statusRequest", [KU64]); ("statusResponse", [KU64; KU64; KU64]);
     ("closeRequest", [KU64]); ("closeResponse", [KErr]) ].
 
+(** Field order by name: a swap of two same-kind fields is a layout change. *)
+Definition deployed_field_names : list (string * list string) :=
+  [ ("helloRequest", ["msg"]); ("helloResponse", ["msg"]);
+    ("dialRequest", []); ("dialResponse", ["session"; "err"]);
+    ("dialSideRequest", ["session"; "key"; "token"]);
+    ("dialSide2Request", ["session"; "key"; "token"; "tcpAddr"]);
+    ("readRequest", ["session"; "maxRead"]); ("readResponse", ["bytes"; "err"]);
+    ("writeRequest", ["session"; "bytes"]); ("writeResponse", ["written"; "err"]);
+    ("statusRequest", ["session"]);
+    ("statusResponse", ["uptime"; "totalRead"; "totalWritten"]);
+    ("closeRequest", ["session"]); ("closeResponse", ["err"]) ].
+
 (** request type code -> request struct (newRequestMessage) *)
 Definition deployed_requests : list (N * option string) :=
   [ (0%N, None); (1%N, Some "helloRequest"); (2%N, Some "dialRequest");
